@@ -41,6 +41,10 @@ FUNCS_BY_PROPERTY = {
 }
 
 
+def q(text):
+    return '"' + text + '"'
+
+
 class Gen:
     def __init__(self, rng, prefer=()):
         self.rng = rng
@@ -105,18 +109,18 @@ class Gen:
             (1, 'INDEX', lambda: f'INDEX(A3:B8{self.sep()}{self.pos(d, 6)}{self.sep()}{r.choice(["1", "2", "F2", "F3"])})'),
             (1, 'INDEX', lambda: f'INDEX(B3:B8,MATCH({self.key(d)},A3:A8,0))'),
             (1, 'COLUMN', lambda: f'COLUMN({self.ref(r.choice(NUM_CELLS + TEXT_CELLS))})'),
-            (1, 'SEARCH', lambda: f'SEARCH({r.choice(["a", "b", "c", "ab", "B", "?c", "b*"])!r},{self.text(d - 1)})'.replace("'", '"')),
+            (1, 'SEARCH', lambda: f'SEARCH({q(r.choice(["a", "b", "c", "ab", "B", "?c", "b*"]))},{self.text(d - 1)})'),
             (1, 'VALUE', lambda: f'VALUE({r.choice(["E2", "LEFT(E2,1)", "RIGHT(E2,1)", "E2&E2", "MID(D2&E2,7,2)"])})'),
             (2, 'YEAR', lambda: f'{r.choice(["YEAR", "MONTH", "DAY"])}({self.date(d - 1)})'),
-            (1, 'DATEDIF', lambda: f'DATEDIF({self.ref("E5")},{self.date(d - 1)},{r.choice(["D", "M", "Y"])!r})'.replace("'", '"')),
+            (1, 'DATEDIF', lambda: f'DATEDIF({self.ref("E5")},{self.date(d - 1)},{q(r.choice(["D", "M", "Y"]))})'),
             (1, 'NETWORKDAYS', lambda: f'NETWORKDAYS({self.ref("E5")},{self.date(d - 1)})'),
             (2, 'SUMIF', lambda: f'SUMIF(A3:A8{self.sep()}{self.crit(d)}{self.sep()}B3:B8)'),
             (1, 'SUMIF', lambda: f'SUMIF(B3:B8{self.sep()}{self.crit(d)})'),
             (2, 'SUMIFS', lambda: f'SUMIFS(B3:B8{self.sep()}A3:A8{self.sep()}{self.crit(d)})'),
             (1, 'SUMIFS', lambda: f'SUMIFS(B3:B8,A3:A8,{self.crit(d)},B3:B8,{self.crit(d)})'),
             (2, 'COUNTIFS', lambda: f'COUNTIFS({r.choice(["A3:A8", "B3:B8", "C3:C8"])}{self.sep()}{self.crit(d)})'),
-            (1, 'COUNTIFS', lambda: f'COUNTIFS(C3:C8,{r.choice(["k*", "k?", "k3", "*3", "<>k3"])!r})'.replace("'", '"')),
-            (1, 'AVERAGEIFS', lambda: f'AVERAGEIFS(B3:B8,A3:A8,{r.choice([">0", ">=1", "<100", "<>99"])!r})'.replace("'", '"')),
+            (1, 'COUNTIFS', lambda: f'COUNTIFS(C3:C8,{q(r.choice(["k*", "k?", "k3", "*3", "<>k3"]))})'),
+            (1, 'AVERAGEIFS', lambda: f'AVERAGEIFS(B3:B8,A3:A8,{q(r.choice([">0", ">=1", "<100", "<>99"]))})'),
         ])
 
     def digits(self):
@@ -176,7 +180,7 @@ class Gen:
             (3, 'RIGHT', lambda: f'RIGHT({self.text(d - 1)}{self.sep()}{self.count(d)})'),
             (3, 'MID', lambda: f'MID({self.text(d - 1)}{self.sep()}{self.pos(d, 4)}{self.sep()}{self.count(d)})'),
             (1, 'LEFT', lambda: f'LEFT({self.text(d - 1)})'),
-            (2, 'CONCATENATE', lambda: f'CONCATENATE({self.text(d - 1)}{self.sep()}{r.choice(["-", "", " "])!r}{self.sep()}{self.text(d - 1)})'.replace("'", '"')),
+            (2, 'CONCATENATE', lambda: f'CONCATENATE({self.text(d - 1)}{self.sep()}{q(r.choice(["-", "", " "]))}{self.sep()}{self.text(d - 1)})'),
             (1, 'CONCATENATE', lambda: f'CONCATENATE({self.text(d - 1)},{self.intnum(d - 1)})'),
             (2, 'IF', lambda: f'IF({self.boolean(d - 1)}{self.sep()}{self.text(d - 1)}{self.sep()}{self.text(d - 1)})'),
             (1, 'IFS', lambda: f'IFS({self.boolean(d - 1)},{self.text(d - 1)},{self.boolean(0)},{self.text(0)},TRUE,"none")'),
